@@ -398,6 +398,11 @@ def files(ck, prop, tmp, n):
         if prop == "C08" and len(lines) >= 2 and it % 3 == 0:
             perm = list(range(len(lines)))
             rng.shuffle(perm)
+            if keys and rng.random() < 0.4:
+                # an input that is ALREADY in ascending order of the naive tuple (BO, NO, start) - untagged records (BO = -1) first:
+                # an "already sorted, nothing to do" shortcut must not pass it through
+                perm = sorted(range(len(lines)), key=lambda o: (tuple(keys[o][:3]), o))
+                ck.count("rerun-on-naively-sorted-input")
             lines2 = [lines[i] for i in perm]
             obs2 = runner.run(gfa_text, lines2, bg_in, bg_out, outind)
             if obs2["outcome"] != "ok":
